@@ -96,8 +96,8 @@ fn main_c11(tier: &str, seed: u64, replay: Option<&str>) -> i32 {
     let n = if tier == "thorough" { 400_000 } else { 6_000 };
     let results = par_map(n, &|i| {
         let case = c11::gen_case(seed, i);
-        let (v, st) = c11::check_case(&case);
-        (v, st)
+        // fresh thread: the hash keys of this case derive from its own seed
+        sim::on_fresh_thread(simcore::rng::mix(seed, &[simcore::rng::tag("C11-hash"), i as u64]), move || c11::check_case(&case))
     });
     let mut counters: BTreeMap<String, u64> = BTreeMap::new();
     let mut shapes: BTreeSet<String> = BTreeSet::new();
@@ -117,7 +117,10 @@ fn main_c11(tier: &str, seed: u64, replay: Option<&str>) -> i32 {
         vec!["--no-gitconfig".into(), "--width".into(), "120".into(), "--syntax-theme".into(), "none".into(), "--line-buffer-size".into(), "2".into()],
         vec!["--no-gitconfig".into(), "--width".into(), "120".into(), "--color-only".into()],
     ];
-    let mem: Vec<(Option<Violation>, serde_json::Value)> = par_map(mem_cfgs.len(), &|i| c11::memory_check(&mem_cfgs[i], mem_n, seed));
+    let mem: Vec<(Option<Violation>, serde_json::Value)> = par_map(mem_cfgs.len(), &|i| {
+        let a = mem_cfgs[i].clone();
+        sim::on_fresh_thread(simcore::rng::mix(seed, &[simcore::rng::tag("C11-mem"), i as u64]), move || c11::memory_check(&a, mem_n, seed))
+    });
 
     let known = load_known();
     let mut exit = 0;
@@ -250,6 +253,29 @@ fn main() {
     let replay = args.iter().position(|a| a == "--replay").and_then(|i| args.get(i + 1)).cloned();
     let seed = verif_seed();
     let code = match args.get(1).map(|s| s.as_str()) {
+        Some("hashtest") => {
+            // same seed -> same HashMap iteration order; different seeds -> different orders
+            let order = |seed: u64| -> String {
+                sim::on_fresh_thread(seed, || {
+                    let mut m = std::collections::HashMap::new();
+                    for w in ["color-only", "diff-highlight", "diff-so-fancy", "hyperlinks", "line-numbers", "navigate", "raw", "side-by-side"] {
+                        m.insert(w, 1);
+                    }
+                    let calls = sim::random_calls();
+                    format!("{:?} (getrandom calls seen: {})", m.keys().collect::<Vec<_>>(), calls)
+                })
+            };
+            let a1 = order(1);
+            let a2 = order(1);
+            let distinct: BTreeSet<String> = (0..64).map(order).collect();
+            println!("seed 1: {}\nseed 1 again: {}\ndistinct orders over 64 seeds: {}", a1, a2, distinct.len());
+            if a1 == a2 && distinct.len() > 16 {
+                0
+            } else {
+                eprintln!("HARNESS-ERROR: the harness does not own the hash keys");
+                2
+            }
+        }
         Some("clocktest") => {
             // the simulator owns std's clocks
             sim::sim_clock_begin();
